@@ -19,6 +19,7 @@ def run(ctx):
     # one trace, one shard: the registrations build the model state that the Tables event is compared with
     rejects, lines = vlib.tlc_trace(ctx, 'Trace_Registry', tf, header=1, shards=1)
     hdr = json.loads(lines[0])
+    hdr['names'] = [n for n in hdr['names'] if n not in set(hdr.get('late', []))]
     for (ln, payload) in rejects:
         e = json.loads(lines[ln - 1])
         for why in payload[0]:
@@ -32,7 +33,7 @@ def run(ctx):
                     sorted(set(e['lintDirs']) - set(e['imported'])), sorted(set(e['lintTypes']) - set(e['registeredTypes']))[:5])
                 vlib.report(ctx, 'census:' + why, why + ': ' + detail, dict(event='census'))
             else:
-                vlib.report(ctx, '%s:%s' % (e['ev'], why), 'runtime tables of the default build: %s' % why, dict(event=e['ev']))
+                vlib.report(ctx, '%s:%s' % (e['ev'], why), 'runtime tables of the registry (%s): %s' % (e.get('when', ''), why), dict(event=e['ev'], when=e.get('when')))
     cov = dict(evaluations=len(lines), distinct_nontrivial=len(hdr['names']), programs=len(hdr['names']), exhaustive=True,
                rule='one Register event per registered lint replayed through Registry.tla (tables compared with the runtime lookups afterwards), '
                     'metadata well-formedness per lint, census of the source tree vs the registry; every lint is non-trivial',
